@@ -280,6 +280,25 @@ example : ∀ k < 13, (mpz_inp_raw ⟨1, 0, [0]⟩ ⟨outRawBytes (-184467440737
   decide +kernel
 example : (mpz_inp_str_rd 7 [32, 9, 45] 10).1 = 0 ∧ (mpz_inp_str_rd 7 [32, 9, 49, 50] 10) = (4, 12, []) := by decide +kernel
 
+/-- `fprintf_fault_returns_m1`: the `gmp_fprintf` path for `"<pre>%<width>Z{d,x}<post>"` through the repaired
+    `__gmp_fprintf_funs` (commit 3cf1b4a) returns −1 for EVERY position `k` of the output at which the write
+    fails — in the literal text, the padding (written in pieces of 256), the sign or the digits. -/
+theorem fprintf_fault_returns_m1 (k : Nat) (pre : List Nat) (width base : Nat) (hb : 2 ≤ base) (x : Int)
+    (post : List Nat) (hk : k < (fprintfText pre width base x post).length) :
+    (gmpFprintfModel true { failAt := some k } pre width base x post).1 = -1 ∧
+    (gmpFprintfSpec { failAt := some k } pre width base x post).1 = -1 :=
+  ⟨gmp_fprintf_fault k pre width base hb x post hk, by simp [gmpFprintfSpec, hk]⟩
+
+-- non-vacuity: "ab%Zdc" with x = 12345, write of byte 3 (inside the digits) failing
+example : (gmpFprintfModel true { failAt := some 3 } [97, 98] 0 10 12345 [99]).1 = -1 ∧
+    (gmpFprintfModel true {} [97, 98] 0 10 12345 [99]).1 = 8 := by decide +kernel
+/-- Why that fix matters: the code BEFORE commit 3cf1b4a (`gmp_fprintf_memory` returned `fwrite`'s short
+    count, `gmp_fprintf_reps` compared it with −1) returns 3, not −1, on the same input, and 10 when the
+    failure hits the padding of `"%10Zd"`. -/
+example : (gmpFprintfModel false { failAt := some 3 } [97, 98] 0 10 12345 [99]).1 = 3 ∧
+    (gmpFprintfModel false { failAt := some 0 } [] 10 10 12345 []).1 = 10 := by decide +kernel
+
+
 /-! ## Text streams -/
 
 /-- `str_stream_roundtrip_partial`: for every integer `x`, every documented base except 0
